@@ -53,17 +53,9 @@ def parseKV (s : String) : Option (Nat × Int) :=
   | [k, v] => do pure ((← String.toNat? k), (← String.toInt? v))
   | _ => none
 
-inductive Call
-  | run (st : Nat) (cb : Option Nat) (mr : Option (List Int))
-  | stat (st : Nat) (cb : Option Nat)
-  | init (st : Nat) (cb : Option Nat) (mr : Option (List Int))
-  | step
-  | getState
-  | query
-  | compile (circ : Nat) (args : Option (List (Nat × Int)))
-  | load (circ : Nat) (user : Bool)
+abbrev DCall := Call Nat     -- states are passed by index into `inits`
 
-def parseCall (s : String) : Option Call :=
+def parseCall (s : String) : Option DCall :=
   match s.splitOn "." with
   | ["run", st, cb, mr] => do pure (.run (← String.toNat? st) (← optNat? cb) (← optInts? mr))
   | ["stat", st, cb] => do pure (.stat (← String.toNat? st) (← optNat? cb))
@@ -115,38 +107,32 @@ def showWorld (w : W) : String :=
     "!proc=" ++ (match w.proc.pulses with | none => "N" | some t => showTok t) ++ s!"/{w.proc.phase}"
 
 def execCall (cfg : Cfg) (mode : Mode) (c : Circuit) (inits : List Exact.QS) (phases : List Int)
-    (w : W) (call : Call) : W × String :=
+    (w : W) (call : DCall) : W × String :=
   let n0 := w.log.length
   let evs (w' : W) : String := showEvs (w'.log.drop n0)
   let dummy : Exact.QS := { n := c.nq, k := 0, vecs := [] }
-  match call with
-  | .run st cb mr =>
-    match run Exact.backend cfg mode c w (inits.getD st dummy) cb mr with
-    | (w', .ok r) => (w', "R!" ++ showResult w'.heap r ++ "!" ++ evs w')
-    | (w', .error e) => (w', "E" ++ errName e ++ "!" ++ evs w')
-  | .stat st cb =>
-    match runStatistics Exact.backend cfg mode c w (inits.getD st dummy) cb with
-    | (w', .ok r) => (w', "R!" ++ showResult w'.heap r ++ "!" ++ evs w')
-    | (w', .error e) => (w', "E" ++ errName e ++ "!" ++ evs w')
-  | .init st cb mr => (initRun cfg c w (inits.getD st dummy) cb mr, "I")
-  | .step =>
-    match step Exact.backend cfg mode c w with
-    | (w', none) => (w', "S!" ++ evs w')
-    | (w', some e) => (w', "E" ++ errName e ++ "!" ++ evs w')
-  | .getState =>
-    match w.sim with
-    | none => (w, "Eattr!")
-    | some s0 =>
-      match getter cfg s0.f with
-      | (f, none) => ({ w with sim := some { s0 with f := f } }, "G!" ++ showState f.st)
-      | (f, some e) => ({ w with sim := some { s0 with f := f } }, "E" ++ errName e ++ "!")
-  | .query => (w, "Q")
-  | .compile circ args =>
-    let (cp, tok) := compile cfg phases w.comp circ args
-    ({ w with comp := cp }, "C" ++ showTok tok)
-  | .load circ user =>
-    let (w', tok) := loadCircuit cfg phases w circ user
-    (w', "C" ++ showTok tok)
+  let stOf (i : Nat) : Exact.QS := inits.getD i dummy
+  let call' : Call Exact.QS := match call with
+    | .run st cb mr => .run (stOf st) cb mr
+    | .stat st cb => .stat (stOf st) cb
+    | .init st cb mr => .init (stOf st) cb mr
+    | .step => .step
+    | .getState => .getState
+    | .query => .query
+    | .compile ci a => .compile ci a
+    | .load ci u => .load ci u
+  let (w', ret) := exec Exact.backend cfg mode c phases w call'
+  match call, ret with
+  | .init .., _ => (w', "I")
+  | .step, .unit none => (w', "S!" ++ evs w')
+  | _, .unit (some e) => (w', "E" ++ errName e ++ "!" ++ evs w')
+  | _, .unit none => (w', "S!" ++ evs w')
+  | _, .result (.ok r) => (w', "R!" ++ showResult w'.heap r ++ "!" ++ evs w')
+  | _, .result (.error e) => (w', "E" ++ errName e ++ "!" ++ evs w')
+  | _, .state (.ok st) => (w', "G!" ++ showState st)
+  | _, .state (.error e) => (w', "E" ++ errName e ++ "!")
+  | _, .nothing => (w', "Q")
+  | _, .program tok => (w', "C" ++ showTok tok)
 
 def parseLists (s : String) : Option (List (List Int)) :=
   if s = "N" then some [] else
